@@ -160,7 +160,10 @@ Definition cycle_pairs (l : list Z) : list (Z * Z) :=
 Definition in_itv (t : Z) (i : Z * Z) : bool := (fst i <=? t) && (t <=? snd i).
 Definition mem (t : Z) (l : list (Z * Z)) : bool := existsb (in_itv t) l.
 Definition first_start (tl : tline) : Z := fst (last (snd tl) (fst tl)).
-Definition max_id (g : graph) : Z := maxZ 0 (map fst (g_snaps g)).
+(* max(self.temporal_snapshots_ids()): Python raises ValueError on an empty list; an adjacency entry never
+   exists without a snapshot id, the model answers 0 there *)
+Definition max_id (g : graph) : Z :=
+  match map fst (g_snaps g) with [] => 0 | x :: r => fold_left Z.max r x end.
 
 Definition presence_test (g : graph) (tl : tline) (t : Z) : bool :=
   if g_rem g
